@@ -223,6 +223,12 @@ class Verifier(Stmts):
         st.assume(z3.ForAll([i], z3.Implies(z3.And(0 <= i, i < list_len(lt, L)),
                   list_get(lt, L, i) == tup_mk(tt, [list_get(klt, ks.z, i), opt_val(opt(t.v), z3.Select(D, list_get(klt, ks.z, i)))])),
                   patterns=[list_get(lt, L, i)]))
+        if getattr(ks, 'src', None) is not None and ks.src[0] == 'listing':
+            # every present key has its item in the listing (triggered by a lookup in the dictionary, so that contract clauses
+            # quantified over keys reach the per-index loop invariants)
+            idx = ks.src[1]; k = z3.Const(fresh_name('k'), sort_of(t.k))
+            st.assume(z3.ForAll([k], z3.Implies(z3.Not(opt_is_none(opt(t.v), z3.Select(D, k))),
+                      list_get(lt, L, idx(k)) == tup_mk(tt, [k, opt_val(opt(t.v), z3.Select(D, k))])), patterns=[z3.Select(D, k)]))
         return V(lt, L)
     def bm_dict_update(self, st, r, args, kw, node):
         self.need_typed(r, node)
